@@ -17,7 +17,7 @@ typedef struct { char key[64]; int v; } flag_t;
 static flag_t flags[32]; static int nflags;
 static char *samples[12]; static int nsamples;
 static char *notes[64]; static int nnotes;
-typedef struct { char *cls, *detail, *replay, *human; long count; } viol_t;
+typedef struct { char *cls, *detail, *replay, *human; long count; size_t jobn; } viol_t;
 static viol_t viols[256]; static int nviols; static long total_viol;
 static int infra; static char *infra_msgs[16];
 static char prop[16], tier[16], outdir[256];
@@ -74,22 +74,32 @@ static void jstr(FILE *f, const char *s) {
 	}
 	fputc('"', f);
 }
+static void write_replay(viol_t *v, const char *harness, const void *job, size_t n) {
+	FILE *f = fopen(v->replay, "w");
+	if (!f) return;
+	fprintf(f, "{\"property\":"); jstr(f, prop); fprintf(f, ",\"harness\":"); jstr(f, harness);
+	fprintf(f, ",\"class\":"); jstr(f, v->cls); fprintf(f, ",\"detail\":"); jstr(f, v->detail);
+	fprintf(f, ",\"case\":"); jstr(f, v->human); fprintf(f, ",\"job_hex\":\"");
+	for (size_t i = 0; i < n; i++) fprintf(f, "%02x", ((const uint8_t *) job)[i]);
+	fprintf(f, "\"}\n"); fclose(f);
+}
 void rep_violation(const char *cls, const char *detail, const char *harness, const void *job, size_t n, const char *human) {
 	total_viol++;
-	for (int i = 0; i < nviols; i++) if (!strcmp(viols[i].cls, cls)) { viols[i].count++; return; }
+	for (int i = 0; i < nviols; i++) if (!strcmp(viols[i].cls, cls)) {
+		viols[i].count++;
+		if (n < viols[i].jobn || (human && strstr(human, "single case") && !strstr(viols[i].human, "single case"))) {   /* keep the smallest witness */
+			free(viols[i].detail); free(viols[i].human);
+			viols[i].detail = strdup(detail ? detail : ""); viols[i].human = strdup(human ? human : ""); viols[i].jobn = n;
+			write_replay(&viols[i], harness, job, n);
+		}
+		return;
+	}
 	if (nviols >= 256) return;
 	viol_t *v = &viols[nviols];
-	v->cls = strdup(cls); v->detail = strdup(detail ? detail : ""); v->count = 1; v->human = strdup(human ? human : "");
+	v->cls = strdup(cls); v->detail = strdup(detail ? detail : ""); v->count = 1; v->human = strdup(human ? human : ""); v->jobn = n;
 	char path[400]; snprintf(path, sizeof path, "%s/%s-%d.replay.json", outdir, tier, nviols);
-	FILE *f = fopen(path, "w");
-	if (f) {
-		fprintf(f, "{\"property\":"); jstr(f, prop); fprintf(f, ",\"harness\":"); jstr(f, harness);
-		fprintf(f, ",\"class\":"); jstr(f, cls); fprintf(f, ",\"detail\":"); jstr(f, v->detail);
-		fprintf(f, ",\"case\":"); jstr(f, v->human); fprintf(f, ",\"job_hex\":\"");
-		for (size_t i = 0; i < n; i++) fprintf(f, "%02x", ((const uint8_t *) job)[i]);
-		fprintf(f, "\"}\n"); fclose(f);
-	}
 	v->replay = strdup(path);
+	write_replay(v, harness, job, n);
 	nviols++;
 }
 int rep_collect(const run_res_t *r, const char *harness, const void *job, size_t n, const char *human) {
